@@ -1,3 +1,4 @@
+from fractions import Fraction
 from typing import Any
 from statham.schema.exceptions import ValidationError
 from statham.schema.validation.base import Validator
@@ -60,10 +61,18 @@ class MultipleOf(Validator):
 
     def _validate(self, value: Any):
         multiple_of = self.params["multipleOf"]
-        if isinstance(multiple_of, float):
-            quotient = value / multiple_of
-            if int(quotient) != quotient:
-                raise ValidationError
-            return
-        if value % multiple_of:
+        try:
+            if isinstance(multiple_of, float):
+                quotient = value / multiple_of
+                failed = int(quotient) != quotient
+            else:
+                failed = bool(value % multiple_of)
+        except (OverflowError, ValueError):
+            # Floating point arithmetic cannot represent the quotient, or
+            # the value is not finite: decide exactly using rationals.
+            try:
+                failed = bool(Fraction(value) % Fraction(multiple_of))
+            except (OverflowError, ValueError):
+                failed = True
+        if failed:
             raise ValidationError
